@@ -65,6 +65,7 @@ def space_zoo():
         'rn4_wconst2': odl.rn(4, weighting=2.0),
         'rn3_wconst0.5': odl.rn(3, weighting=0.5),
         'rn3_warr': odl.rn(3, weighting=[1.0, 2.0, 0.5]),
+        'rn4_warr': odl.rn(4, weighting=[1.0, 4.0, 0.5, 2.0]),
         'discr4_cell0.25': ud4,
         'discr3_cell2': odl.uniform_discr(0, 6, 3),
         'discr5_cell0.2': odl.uniform_discr(0, 1, 5),
@@ -82,7 +83,7 @@ def space_zoo():
     return z
 
 
-FLAT = ['rn1', 'rn2', 'rn3', 'rn4', 'rn8', 'rn4_wconst2', 'rn3_wconst0.5', 'rn3_warr',
+FLAT = ['rn1', 'rn2', 'rn3', 'rn4', 'rn8', 'rn4_wconst2', 'rn3_wconst0.5', 'rn3_warr', 'rn4_warr',
         'discr4_cell0.25', 'discr3_cell2', 'discr5_cell0.2', 'discr2x3_cell0.5']
 FLAT_EXACT = [k for k in FLAT if k != 'discr5_cell0.2']
 POWER = ['rn3^2', 'rn2^3', 'discr4^2_cell0.25', 'discr3^2_cell2']
@@ -530,7 +531,7 @@ def leaf_specs(rng, quick):
     if quick:
         # a sample of the space zoo per run (every category present; seeds rotate the rest)
         flat_keys = [rng.choice(['rn1', 'rn2', 'rn3', 'rn4', 'rn8']),
-                     rng.choice(['rn4_wconst2', 'rn3_wconst0.5']), 'rn3_warr',
+                     rng.choice(['rn4_wconst2', 'rn3_wconst0.5']), 'rn3_warr', 'rn4_warr',
                      rng.choice(['discr4_cell0.25', 'discr3_cell2', 'discr2x3_cell0.5']),
                      rng.choice(FLAT)]
         flat_keys = sorted(set(flat_keys))
@@ -763,9 +764,11 @@ def probe_minimiser(orc, p, pool, rng, n_rand, use_nm, S, finite_everywhere, dee
     # segments towards feasible points (the pool consists of proximal points, x itself, ...)
     for q, qname in pool:
         d = q - p
-        for t in ((1.0, 0.5, 0.1, 1e-2, 1e-3, 1e-5) if deep >= 2 else (1.0, 0.1, 1e-3, 1e-5)):
+        for t in ((1.0, 0.5, 0.1, 1e-2, 1e-3, 1e-5) if deep >= 2 else
+                  ((1.0, 0.1, 1e-3, 1e-5) if deep else (1.0, 0.1, 1e-3))):
             test(p + t * d, 'segment t={} towards {}'.format(t, qname))
-    ts = (1e-1, 1e-2, 1e-3, 1e-4, 1e-6) if deep >= 2 else (1e-1, 1e-3, 1e-6)
+    ts = (1e-1, 1e-2, 1e-3, 1e-4, 1e-6) if deep >= 2 else ((1e-1, 1e-3, 1e-6) if deep else
+                                                          (1e-1, 1e-4))
     # coordinate probes
     ncoord = (3, 5, 8)[deep]
     idx = list(range(n)) if n <= ncoord else rng.sample(range(n), ncoord)
@@ -1170,6 +1173,9 @@ def iterate_cases(ctx, specs, deep=False, per_spec_sigmas=None):
         sigs = sigma_choices(case, rng, exact_space)
         if per_spec_sigmas:
             sigs = sigs[:per_spec_sigmas]
+        if ctx.quick and not deep:
+            # one float step (dyadic or general) plus the point-wise / per-summand kinds
+            sigs = [sigs[rng.randrange(2)]] + sigs[2:]
         for sk, sg in sigs:
             xs = x_choices(case, rng, sg, exact_space)
             if ctx.quick and not deep:
